@@ -165,6 +165,7 @@ static void cmd(const std::vector<std::string>& t, std::string& out) {
     auto work = [&](size_t ti) {
       while (!go.load(std::memory_order_acquire)) {
       }
+      std::string ondemand_digest;
       for (uint64_t it = 0; it < iters; it++) {
         Document d;
         d.Parse(json.data(), json.size());
@@ -174,6 +175,20 @@ static void cmd(const std::vector<std::string>& t, std::string& out) {
           continue;
         }
         auto& a = d.GetAllocator();
+        if (d.IsObject() && d.Size() > 0) {
+          // on-demand lookup of the last member of this thread's own text (escaped keys go through the key-decoding scratch buffer)
+          auto last = d.MemberBegin() + (d.Size() - 1);
+          std::string kname(last->name.GetStringView().data(), last->name.GetStringView().size());
+          sonic_json::GenericJsonPointer<std::string> jp;
+          jp.emplace_back(sonic_json::GenericJsonPointerNode<std::string>(kname));
+          sonic_json::StringView tgt;
+          auto r = sonic_json::GetOnDemand(sonic_json::StringView(json.data(), json.size()), jp, tgt);
+          Document od;
+          od.ParseOnDemand(json.data(), json.size(), jp);
+          WriteBuffer wo;
+          od.Serialize(wo);
+          ondemand_digest = std::to_string((int)r.Error()) + ":" + std::to_string(tgt.size()) + ":" + std::string(wo.ToString(), wo.Size());
+        }
         if (d.IsObject()) {
           d.AddMember("thr-key", Document::NodeType(uint64_t(it)), a);
           d.CreateMap(a);
@@ -188,7 +203,7 @@ static void cmd(const std::vector<std::string>& t, std::string& out) {
         }
         WriteBuffer wb;
         d.Serialize(wb);
-        dumps[ti] = std::string(wb.ToString(), wb.Size());
+        dumps[ti] = std::string(wb.ToString(), wb.Size()) + " od=" + ondemand_digest;
       }
     };
     std::vector<std::thread> th;
